@@ -128,6 +128,8 @@ def harness_build(crates, release=False):
     Every crate under harness/ is its own workspace (own Cargo.lock copied from the repository),
     all sharing one target directory so aeron-rs itself is compiled once per profile."""
     lock_src = os.path.join(REPO, 'Cargo.lock')
+    if not os.path.exists(lock_src):          # Cargo.lock is not tracked: scratch worktrees have none
+        lock_src = '/repo/Cargo.lock'
     env = {'CARGO_TARGET_DIR': CARGO_TARGET, 'RUSTFLAGS': '--cfg %s -Awarnings' % GUARD}
     with _Lock('cargo'):
         for c in crates:
@@ -386,19 +388,20 @@ def known_findings(prop_id):
 # evidence / verdict
 
 def write_evidence(prop_id, tier, seed, coverage, assumptions, wall_s, violations):
-    os.makedirs(os.path.join(ROOT, 'evidence'), exist_ok=True)
+    evdir = os.path.join(ROOT if WS == ROOT else WS, 'evidence')   # scratch-repository runs never touch /verif/evidence
+    os.makedirs(evdir, exist_ok=True)
     ev = {
         'property_id': prop_id, 'tier': tier, 'seed': seed, 'level': 'proof',
         'coverage': coverage, 'assumptions': assumptions, 'wall_s': round(wall_s, 2), 'violations': violations,
     }
-    p = os.path.join(ROOT, 'evidence', prop_id + '.json')
+    p = os.path.join(evdir, prop_id + '.json')
     with open(p + '.tmp', 'w') as f:
         json.dump(ev, f, indent=1, sort_keys=True)
     os.replace(p + '.tmp', p)
 
 
 def write_replay(prop_id, payload):
-    d = os.path.join(ROOT, 'replays')
+    d = os.path.join(ROOT if WS == ROOT else WS, 'replays')
     os.makedirs(d, exist_ok=True)
     h = hashlib.sha1(json.dumps(payload, sort_keys=True, default=str).encode()).hexdigest()[:10]
     p = os.path.join(d, '%s-%s.json' % (prop_id, h))
